@@ -6,7 +6,7 @@
    (Gen/LoadGen.v: "the unwrap at this site is still there").  The theorems hold
    for EVERY table, so they stay valid when sites are repaired; the instance
    for the current table says which way the property goes today. *)
-From Ink.Json Require Import StdLoad StdLoadProofs.
+From Ink.Json Require Import StdLoad StdLoadProofs StdLoadDepth.
 From Ink.Gen Require Import LoadGen.
 
 (* (1) totality: with every story-reachable site repaired, no document panics *)
@@ -18,6 +18,10 @@ Check load_story_total :
   forall panics, (forall s, story_site s = true -> panics s = false) ->
   forall j site, load_story_gen panics j <> Panic site.
 Print Assumptions load_story_total.
+
+(* the hypothesis of (1) is satisfiable: the all-repaired table *)
+Example load_story_total_hyp_sat : forall s, story_site s = true -> no_panics s = false.
+Proof. exact (fun s _ => eq_refl). Qed.
 
 Theorem load_story_repaired_never_panics : forall j site, load_story_repaired j <> Panic site.
 Proof. exact load_story_repaired_total. Qed.
@@ -72,6 +76,26 @@ Check repair_is_conservative :
   forall j, (forall s, load_story j = Ok s -> load_story_repaired j = Ok s)
          /\ (forall k m, load_story j = Err k m -> load_story_repaired j = Err k m).
 Print Assumptions repair_is_conservative.
+
+(* (5) recursion depth of the loader <= nesting depth of the document: with a budget of
+   (nesting depth + 1) nested calls of jtoken_to_runtime_object the budgeted loader IS the loader,
+   for every site table.  serde_json's recursion limit (128) therefore bounds the std loader's stack;
+   stack exhaustion itself is not expressible in the model (see MANIFEST: partial). *)
+Theorem load_depth_bounded :
+  forall panics fuel j name, (jdepth j < fuel)%nat ->
+    jtoken_fuel panics fuel j name = jtoken_to_obj_gen panics j name.
+Proof. exact fuel_enough. Qed.
+Check load_depth_bounded :
+  forall panics fuel j name, (jdepth j < fuel)%nat ->
+    jtoken_fuel panics fuel j name = jtoken_to_obj_gen panics j name.
+Print Assumptions load_depth_bounded.
+
+Theorem load_depth_bound_tight :
+  jdepth (nest 5) = 6%nat
+  /\ jtoken_fuel lsite_panics 6 (nest 5) None <> jtoken_to_obj (nest 5) None
+  /\ jtoken_fuel lsite_panics 7 (nest 5) None = jtoken_to_obj (nest 5) None.
+Proof. exact depth_bound_tight. Qed.
+Print Assumptions load_depth_bound_tight.
 
 (* non-vacuity *)
 Theorem a_story_loads : is_ok (load_story tiny_story) = true /\ is_ok (load_story_repaired tiny_story) = true.
